@@ -9,6 +9,7 @@ pub mod refmodel {
     pub mod matchrule;
     pub mod msg;
     pub mod names;
+    pub mod sasl;
     pub mod sig;
     pub mod val;
 }
